@@ -301,7 +301,7 @@ func emitReplay(prop string, seed uint64, v engine.ViolRec, minimise bool) (stri
 	orig := len(acts)
 	note := ""
 	if minimise {
-		m, r, tests := engine.Minimize(v.Config, acts, v.Violation, engine.Options{Target: prop}, 60*time.Second)
+		m, r, tests := engine.Minimize(v.Config, acts, v.Violation, engine.Options{Target: prop}, 120*time.Second)
 		if r != nil && r.Violation != nil {
 			acts, viol, digest = m, r.Violation, r.Digest
 			note = fmt.Sprintf("minimised from %d to %d actions in %d executions", orig, len(acts), tests)
